@@ -680,7 +680,8 @@ def run_history(history, want=("tree", "names", "atomic")):
             for f in tfails:
                 f["locus"].update(op=op, refused=raised is not None, step_classes=sorted(set(info["cls"])))
             step_fails.extend(tfails)
-        if "names" in want and not tfails:
+        if "names" in want:
+            # (also on a tree that is no longer well formed: a child listed twice is a name clash too)
             nf = inv.name_failures(eng.U)
             for f in nf:
                 f["locus"].update(op=op, refused=raised is not None, step_classes=sorted(set(info["cls"])))
